@@ -35,6 +35,8 @@ func init() {
 }
 
 func runC02(c *an.Ctx) {
+	c.Floor("C02-R9", 1)
+	mainPipeline(c, "C02-R9")
 	c.Floor("C02-R1", 1)
 	c.Floor("C02-R2", 1)
 	c.Floor("C02-R3", 1)
@@ -293,6 +295,9 @@ func runC02(c *an.Ctx) {
 		},
 	})
 
+	// ---- R4b: hosts-style rules, verdict construction and $dnsrewrite priority
+	c02Rewrites(c)
+
 	// ---- R5
 	decide(c, "C02-R5", "dnssvc/internal/mainmw.(*Middleware).filter", an.DecideCfg{
 		Dom: an.Domain{"prof": an.NilOrNot, "prof.FilteringEnabled": an.Bools, "dev.FilteringEnabled": an.Bools},
@@ -443,4 +448,180 @@ func runC02(c *an.Ctx) {
 				"the per-request constructor's "+fld+" is not taken from the recognised profile")
 		}
 	}
+}
+
+// c02Rewrites holds the tables of the rule-data conversions of package rulelist.
+func c02Rewrites(c *an.Ctx) {
+	dt := func(n string) int64 { v, _ := c.ConstInt("github.com/miekg/dns", n); return v }
+	tA, tAAAA := dt("TypeA"), dt("TypeAAAA")
+	const rl = "filter/internal/rulelist."
+	decide(c, "C02-R4", rl+"(*URLFilterResult).hostsRulesToResult", an.DecideCfg{
+		Dom: an.Domain{"len(p0.hostRules4)": an.Ints(0, 2), "len(p0.hostRules6)": an.Ints(0, 2), "p2": an.Ints(tA, tAAAA, dt("TypeTXT"))},
+		OnCall: func(it *an.Interp, name string, args []an.AV) (an.AV, bool) {
+			if strings.HasSuffix(name, "rulelist.ruleDataToResult") {
+				return an.NonNil("result(" + args[0].String() + "," + args[1].String() + "," + args[2].String() + "," + args[3].String() + ")"), true
+			}
+			return an.AV{}, false
+		},
+		Expect: func(f an.Features, o an.AOutcome) string {
+			n4, n6, qt := f.I("len(p0.hostRules4)"), f.I("len(p0.hostRules6)"), f.I("p2")
+			if n4 == 0 && n6 == 0 {
+				if o.RetString() == "nil" {
+					return ""
+				}
+				return "no verdict without hosts-style rules"
+			}
+			src := "p0.hostRules6[0]"
+			if (qt == tA && n4 > 0) || (!(qt == tAAAA && n6 > 0) && n4 > 0) {
+				src = "p0.hostRules4[0]"
+			}
+			want := fmt.Sprintf("nonnil:result(p1,%s.FilterListID,%s.RuleText,false)", src, src)
+			if o.RetString() != want {
+				return "a block verdict from the first hosts rule of the question's family, else of the other family (" + want + "); got " + o.RetString()
+			}
+			return ""
+		},
+	})
+	bs, _ := c.ConstStr("filter/internal", "IDBlockedService")
+	eq := fmt.Sprintf("(p0.Map(p1)#0 == %q)", bs)
+	decide(c, "C02-R4", rl+"ruleDataToResult", an.DecideCfg{
+		Dom: an.Domain{eq: an.Bools, "p3": an.Bools},
+		Expect: func(f an.Features, o an.AOutcome) string {
+			if o.Exit != "return" || len(o.Ret) != 1 {
+				return "a result"
+			}
+			wantT := "*filter/internal.ResultBlocked"
+			if f.B("p3") {
+				wantT = "*filter/internal.ResultAllowed"
+			}
+			if o.Ret[0].Dyn != wantT {
+				return wantT + " (an allow-list rule allows, every other rule blocks); got " + o.Ret[0].Dyn
+			}
+			k := strings.TrimPrefix(o.Ret[0].String(), "&")
+			wantRule := "p2"
+			if f.B(eq) {
+				wantRule = "p0.Map(p1)#1"
+			}
+			if got := o.Mem[k+".List"].String(); got != "p0.Map(p1)#0" {
+				return "the verdict attributed to the list the rule came from; got " + got
+			}
+			if got := o.Mem[k+".Rule"].String(); got != wantRule {
+				return "the rule text (the service ID for blocked services) " + wantRule + "; got " + got
+			}
+			return ""
+		},
+	})
+	// $dnsrewrite priority: the first CNAME or non-success rcode wins at once, else the values are collected per type
+	decide(c, "C02-R4", rl+"processDNSRewriteRules", an.DecideCfg{
+		Dom: an.Domain{"len(p0)": an.Ints(0, 1, 2), `(p0[0].DNSRewrite.NewCNAME == "")`: an.Bools, `(p0[1].DNSRewrite.NewCNAME == "")`: an.Bools,
+			"p0[0].DNSRewrite.RCode": an.Ints(0, 5), "p0[1].DNSRewrite.RCode": an.Ints(0, 5)},
+		Expect: func(f an.Features, o an.AOutcome) string {
+			if o.Exit != "return" || len(o.Ret) != 1 {
+				return "a result"
+			}
+			k := strings.TrimPrefix(o.Ret[0].String(), "&")
+			n := int(f.I("len(p0)"))
+			for i := 0; i < n; i++ {
+				r := fmt.Sprintf("p0[%d]", i)
+				if !f.B(fmt.Sprintf(`(%s.DNSRewrite.NewCNAME == "")`, r)) {
+					if o.Mem[k+".CanonName"].String() == r+".DNSRewrite.NewCNAME" && o.Mem[k+".ResRuleText"].String() == r+".RuleText" {
+						return ""
+					}
+					return "the first CNAME rule decides alone (canonical name and rule text of " + r + "); got " + o.Mem[k+".CanonName"].String()
+				}
+				if f.I(r+".DNSRewrite.RCode") != 0 {
+					if rc := o.Mem[k+".RCode"].String(); (rc == r+".DNSRewrite.RCode" || rc == fmt.Sprint(f.I(r+".DNSRewrite.RCode"))) && o.Mem[k+".ResRuleText"].String() == r+".RuleText" && o.Mem[k+".CanonName"].String() != r+".DNSRewrite.NewCNAME" {
+						return ""
+					}
+					return "the first non-success rcode rule decides alone (" + r + "); got rcode " + o.Mem[k+".RCode"].String()
+				}
+			}
+			if cn := o.Mem[k+".CanonName"].String(); cn != "" && cn != `""` {
+				return "no canonical name without a CNAME rule; got " + cn
+			}
+			// collected rules
+			var appended int
+			for _, e := range o.Effects {
+				if e.Kind == "store" && strings.Contains(e.Name, ".DNSRewrite.RRType]") && len(e.Args) == 1 && strings.Contains(e.Args[0], ".DNSRewrite.Value") {
+					appended++
+				}
+			}
+			if appended != n {
+				return fmt.Sprintf("every success rule's value collected under its record type (%d); got %d", n, appended)
+			}
+			return ""
+		},
+	})
+	decide(c, "C02-R4", rl+"ProcessDNSRewrites", an.DecideCfg{
+		Dom: an.Domain{"len(p1)": an.Ints(0, 2), `(rr.CanonName == "")`: an.Bools, "self": an.Bools, "rr.RCode": an.Ints(0, 3), "fderr": an.Bools},
+		OnCall: func(it *an.Interp, name string, args []an.AV) (an.AV, bool) {
+			switch {
+			case strings.HasSuffix(name, "rulelist.processDNSRewriteRules"):
+				if args[0].String() != "p1" {
+					return an.Sym("rewrites of other rules"), true
+				}
+				return an.NonNil("rr"), true
+			case name == "strings.EqualFold":
+				a, b := args[0].String(), args[1].String()
+				if (a == "rr.CanonName" && b == "p0.Host") || (b == "rr.CanonName" && a == "p0.Host") {
+					return it.Feature("self"), true
+				}
+				return an.Sym("comparison of " + a + " and " + b), true
+			case strings.HasSuffix(name, "dnsmsg.Clone"):
+				return an.NonNil("clone(" + args[0].String() + ")"), true
+			case strings.HasSuffix(name, "dns.Fqdn"):
+				return an.Sym("fqdn(" + args[0].String() + ")"), true
+			case strings.HasSuffix(name, "Constructor).NewBlockedRespRCode"):
+				return an.NonNil("rcoderesp(" + args[0].String() + "," + args[1].String() + "," + args[2].String() + ")"), true
+			case strings.HasSuffix(name, "rulelist.filterDNSRewrite"):
+				if it.Feature("fderr").IsTrue() {
+					return an.AV{Kind: an.KTuple, Tup: []an.AV{an.Nil(), an.NonNil("fdErr")}}, true
+				}
+				return an.AV{Kind: an.KTuple, Tup: []an.AV{an.NonNil("rewritten(" + args[0].String() + "," + args[1].String() + ")"), an.Nil()}}, true
+			}
+			return an.AV{}, false
+		},
+		Expect: func(f an.Features, o an.AOutcome) string {
+			if o.Exit != "return" || len(o.Ret) != 1 {
+				return "a result"
+			}
+			k := strings.TrimPrefix(o.Ret[0].String(), "&")
+			mem := func(fld string) string { return o.Mem[k+"."+fld].String() }
+			switch {
+			case f.I("len(p1)") == 0:
+				if o.RetString() == "nil" {
+					return ""
+				}
+				return "no verdict without $dnsrewrite rules"
+			case !f.B(`(rr.CanonName == "")`):
+				if f.B("self") {
+					if o.RetString() == "nil" {
+						return ""
+					}
+					return "no verdict for a rewrite of a host to itself"
+				}
+				if o.Ret[0].Dyn != "*filter/internal.ResultModifiedRequest" || mem("Msg") != "nonnil:clone(p0.DNS)" || mem("List") != "p2" || mem("Rule") != "rr.ResRuleText" {
+					return "a rewritten copy of this request attributed to this list and rule; got " + o.Ret[0].Dyn + " " + mem("Msg")
+				}
+				if got := o.Mem["clone(p0.DNS).Question[0].Name"].String(); got != "fqdn(rr.CanonName)" {
+					return "the copy's question renamed to the canonical name; got " + got
+				}
+				return ""
+			case f.I("rr.RCode") != 0:
+				if o.Ret[0].Dyn != "*filter/internal.ResultModifiedResponse" || (mem("Msg") != "nonnil:rcoderesp(p0.Messages,p0.DNS,rr.RCode)" && mem("Msg") != fmt.Sprintf("nonnil:rcoderesp(p0.Messages,p0.DNS,%d)", f.I("rr.RCode"))) || mem("List") != "p2" || mem("Rule") != "rr.ResRuleText" {
+					return "a response with the rule's rcode built by the requester's constructor for this request; got " + mem("Msg")
+				}
+				return ""
+			case f.B("fderr"):
+				if o.RetString() == "nil" {
+					return ""
+				}
+				return "no verdict when the rewrite cannot be built"
+			}
+			if o.Ret[0].Dyn != "*filter/internal.ResultModifiedResponse" || mem("Msg") != "nonnil:rewritten(p0,nonnil:rr)" || mem("List") != "p2" {
+				return "the rewritten response attributed to this list; got " + mem("Msg")
+			}
+			return ""
+		},
+	})
 }
